@@ -3,7 +3,7 @@
     form (everything keyed by hash is sorted), plus the case runner used by the correspondence
     check.  No proofs here. *)
 From Coq Require Import List NArith Bool String.
-From GV Require Import Base.Ints Base.Tr Gen.Math Gen.Kernel Model.Mirror.
+From GV Require Import Base.Ints Base.Tr Gen.Math Gen.Kernel Model.Mirror Model.MirrorMgr.
 Import ListNotations.
 Local Open Scope N_scope.
 
@@ -47,7 +47,7 @@ Definition tr_view (v : view) : tr :=
       TL (map TN (vs_keys (v_vals v))); TL (map TN (vs_pows (v_vals v)));
       TL (map TB (sort_b (map (fun p => hd_hash (ph_hdr p)) (v_phs v))));
       tr_pmap (v_pv v); tr_pmap (v_pc v); tr_sum (v_sum v); tr_cproof (v_pcp v);
-      TN (if vs_ok (v_vals v) then 1 else 0)].
+      TN (if vs_ok (v_vals v) then 1 else 0); TN (v_ver v)].
 
 Definition tr_opt_coll (c : option sparse_coll) : tr :=
   match c with None => TL [] | Some (pkh, m) => TL [TB pkh; tr_coll m] end.
@@ -81,29 +81,49 @@ Definition observe (s : kstate) : tr :=
   let '(a, b, c, d) := st_nhr s in
   TL [tr_view (k_vot s); tr_view (k_com s); TL [TN a; TN b; TN c; TN d]; tr_hdrs (st_hdrs s); tr_rounds (st_rounds s)].
 
+Definition tr_vview (v : view) : tr := TL [TN (v_ver v); tr_view v].
+Definition tr_oview (o : option view) : tr := match o with Some v => TL [tr_vview v] | None => TL [] end.
+
+Definition tr_io (i : mio) : tr :=
+  match i with
+  | IONone => TL []
+  | IOEnterView v => TL [TN 1; tr_vview v]
+  | IOEnterHeader x cp => TL [TN 2; TB (hd_hash x); tr_cproof cp]
+  | IOSM vv jv => TL [TN 3; tr_oview vv; tr_oview jv]
+  | IOGossip c v n nl => TL [TN 4; tr_oview c; tr_oview v; tr_oview n; tr_oview nl]
+  | IOEmpty => TL [TN 5]
+  end.
+
+(** observation of mirror + managers: the five store/view components, what the consumer got from
+    this operation, and the heights signalled to the state machine as committed *)
+Definition observe_m (s : mstate) (i : mio) : tr :=
+  match observe (ms_k s) with
+  | TL l => TL (l ++ [tr_io i; TL (map TN (m_committed (ms_m s)))])
+  | t => t
+  end.
+
 (** result of replaying one case: [None] = model and implementation agreed on every step *)
 Inductive mismatch := MM (step : nat) (model_res : N) (model_obs : tr) | MPanic (step : nat) (site : string).
 
-Fixpoint run_case (i : nat) (s : kstate) (steps : list (xop * N * tr)) : option mismatch :=
+Fixpoint run_case (i : nat) (s : mstate) (steps : list (mop * N * tr)) : option mismatch :=
   match steps with
   | [] => None
   | (o, r, ob) :: rest =>
-      match xstep s o with
+      match mstep s o with
       | Panic site => Some (MPanic i site)
-      | Ok (s', r') =>
-          if (r' =? r) && tr_eqb (observe s') ob then run_case (S i) s' rest
-          else Some (MM i r' (observe s'))
+      | Ok (s', r', io) =>
+          if (r' =? r) && tr_eqb (observe_m s' io) ob then run_case (S i) s' rest
+          else Some (MM i r' (observe_m s' io))
       end
   end.
 
 (** states reached, for the monitors *)
-Fixpoint run_states (s : kstate) (ops : list xop) : list kstate :=
-  match ops with
+(** the kernel operations of a trace (consumer operations do not change the kernel state) *)
+Fixpoint ksteps (steps : list (mop * N * tr)) : list (xop * N * tr) :=
+  match steps with
   | [] => []
-  | o :: rest => match xstep s o with
-                 | Ok (s', _) => s' :: run_states s' rest
-                 | Panic _ => []
-                 end
+  | (MK x, r, ob) :: rest => (x, r, ob) :: ksteps rest
+  | _ :: rest => ksteps rest
   end.
 
 (** C05 no-op clause on an implementation trace: whenever the message is all-invalid with respect
@@ -128,7 +148,7 @@ Fixpoint noop_trace_bad (i : nat) (s : kstate) (prev : tr) (steps : list (xop * 
       end
   end.
 
-Definition obs_of (steps : list (xop * N * tr)) : list tr := map (fun x => snd x) steps.
+Definition obs_of (steps : list (mop * N * tr)) : list tr := map (fun x => snd x) steps.
 
 Fixpoint first_bad (f : tr -> bool) (i : nat) (l : list tr) : option nat :=
   match l with
